@@ -212,7 +212,7 @@ type Sorts struct {
 func newSorts() *Sorts {
 	return &Sorts{structs: map[string]*structInfo{}, elemSorts: map[string]bool{},
 		structural: func(p string) bool {
-			return p == "gosrc.io/xmpp" || p == "gosrc.io/xmpp/stanza" || p == "encoding/xml"
+			return p == "gosrc.io/xmpp" || p == "gosrc.io/xmpp/stanza" || p == "encoding/xml" || p == "crypto/tls"
 		}}
 }
 
